@@ -231,6 +231,34 @@ func (e *vtC04Env) mkPG(g int64, c vtC04Cfg) *v1alpha1.PodGroup {
 	}
 }
 
+// prepare builds the objects of an informer add / update event and returns the call that delivers it
+// (nil for the other operations): the stream "race" lets several goroutines deliver the first events of
+// a gang at the same instant.
+func (e *vtC04Env) prepare(op [6]int64) func() {
+	code, a, b, c, d, f := op[0], op[1], op[2], op[3], op[4], op[5]
+	cache := e.cache
+	validPod := a >= 0 && a < e.P
+	validGang := a >= 1 && a <= e.G
+	switch code {
+	case 1:
+		if validPod {
+			pod := e.mkPod(a, b != 0, false)
+			return func() { cache.onPodAdd(pod) }
+		}
+	case 2:
+		if validPod {
+			old, pod := e.mkPod(a, false, false), e.mkPod(a, b != 0, c != 0)
+			return func() { cache.onPodUpdate(old, pod) }
+		}
+	case 4:
+		if validGang {
+			pg := e.mkPG(a, vtC04Cfg{b, c, d, f})
+			return func() { cache.onPodGroupAdd(pg); e.lastPG[a] = pg } // lastPG: PodGroup events all run on one goroutine
+		}
+	}
+	return nil
+}
+
 // apply drives one operation through the real entry points and returns the Permit result code.
 func (e *vtC04Env) apply(op [6]int64) int64 {
 	code, a, b, c, d, f := op[0], op[1], op[2], op[3], op[4], op[5]
